@@ -782,3 +782,33 @@ def fn_with_helpers(facts, name, anchor_pred, keep=()):
             return False
         return reaches_call(facts, cb, anchor_pred)
     return inline_helpers(facts, b, want)
+
+
+def callers_of(facts):
+    """callee body name -> set of caller body names (closures attributed to themselves), direct crate-local calls only"""
+    if getattr(facts, '_callers', None) is None:
+        m = {}
+        for b in facts.bodies.values():
+            if b.kind == 'Promoted':
+                continue
+            for bb, t in b.calls():
+                n = t.callee.name
+                if n and n in facts.by_name:
+                    m.setdefault(n, set()).add(b.name)
+        facts._callers = m
+    return facts._callers
+
+
+def fn_with_private_helpers(facts, name, keep=()):
+    """facts.fn(name) with every crate-local callee spliced in that is called from nowhere else (the shape an extracted
+    private helper has).  Used by rules whose anchors are statements rather than calls."""
+    b = facts.fn(name)
+    cs = callers_of(facts)
+
+    def want(cb):
+        if cb.name in keep or cb.kind == 'Closure':
+            return False
+        who = cs.get(cb.name, set())
+        # all callers are the function itself or code already spliced into it (closures of it / inlined helpers)
+        return bool(who) and all(w == name or w.startswith(name + '::{closure') for w in who)
+    return inline_helpers(facts, b, want, depth=2)
